@@ -280,7 +280,7 @@ func init() {
 		Assumptions: []string{"root", "the hard-link timing exception is encoded as: an entry that was a link member whose named member is deleted or replaced in this sync and whose own identity is otherwise equal may be transferred or not"},
 		Cases: func(tier string) int {
 			if tier == "thorough" {
-				return 30000
+				return 300000
 			}
 			return 2000
 		},
